@@ -17,7 +17,7 @@ def neg_label_filter(g, p):
 class P(EngProp):
     id = "C19"
     rule = ("metamorphic families: a record set (unique timestamps; arbitrary bytes in lines and label values in one theme) and a base query q (selector + 0-3 stage prefix "
-            "incl. parsers), with filters f, g drawn from line filters (|= != |~ !~, ip()), string label matchers (= != =~ !~) and pure and/or predicates a, b. Evaluated on the "
+            "incl. parsers and, in the distinct themes, the stateful distinct stage), with filters f, g drawn from line filters (|= != |~ !~, ip()), string label matchers (= != =~ !~) and pure and/or predicates a, b. Evaluated on the "
             "real engine: q, q|f, q|not f, q|f|g, q|g|f, q|f|f, q|a, q|b, q|a and b, q|a or b, q|=\"\"; the observed results must satisfy: sub-multiset, disjoint partition, "
             "commutation, idempotence, intersection, union, identity -- and each must equal the model. Non-trivial = at least 2 records.")
 
@@ -27,9 +27,19 @@ class P(EngProp):
         cases = []
         while len(cases) < n:
             recs, orc, sel, pipe, theme = themed_case(rng, g, tier)
-            if any(s["k"] == "distinct" for s in pipe):
+            if any(s["k"] == "distinct" for s in pipe) and rng.random() < 0.3:
                 pipe = [s for s in pipe if s["k"] != "distinct"]
             pipe = pipe[:3]
+            if not any(s["k"] == "distinct" for s in pipe) and rng.random() < 0.15:
+                dl = rng.choice(["app", "level", "host"])
+                for r in recs:          # few distinct values, so that records do share them
+                    if rng.random() < 0.9:
+                        r["attrs"] = [(k, v) for k, v in r["attrs"] if k != dl] + [(dl, rng.choice(["u", "v"]))]
+                pipe = [s for s in pipe[:2] if s["k"] not in ("drop", "keep")] + [g.st_distinct([dl] + rng.sample(["n", "nosuch"], rng.randint(0, 1)))]
+            if pipe and pipe[-1]["k"] == "distinct":
+                # q may end in the stateful distinct stage: the filters of the family come AFTER it (an always-true label filter in between keeps
+                # `distinct a != "x"` from reading as something else)
+                pipe = pipe + [{"k": "filter", "p": {"k": "m", "l": "nosuch", "op": "=", "v": ""}, "coq": "ELabelFilter (EPMatch %s %s)" % (cbytes(B("nosuch")), sm_coq("=", ""))}]
             # unique timestamps (relations are on (timestamp, line) multisets)
             for i, r in enumerate(recs):
                 r["ts"] = recs[0]["ts"] + i * 7 if i else r["ts"]
